@@ -38,6 +38,9 @@ pub fn hex(b: &[u8]) -> String {
 }
 
 pub fn unhex(s: &str) -> Vec<u8> {
+    if s == "-" {
+        return vec![];
+    }
     (0..s.len() / 2)
         .map(|i| u8::from_str_radix(&s[2 * i..2 * i + 2], 16).unwrap_or(0))
         .collect()
@@ -206,7 +209,8 @@ impl Backend for Exec {
                     bytes_uploaded: NumberOfBytes::new(0),
                     bytes_left: NumberOfBytes::new(*left),
                     event: event_of(event),
-                    ip_address: Ipv4AddrBytes([9, 9, 9, 9]),
+                    // the in-request address field: varied, often equal to another stored peer's address; must not matter
+                    ip_address: Ipv4AddrBytes([10, 0, 0, (*dl % 6) as u8]),
                     key: PeerKey::new(0),
                     peers_wanted: NumberOfPeers::new(*numwant),
                     port: Port::new(NonZeroU16::new(*port).unwrap_or(NonZeroU16::new(1).unwrap())),
